@@ -17,6 +17,7 @@ import (
 	"github.com/hydraide/hydraide/app/core/hydra/swamp/treasure/msgpackpatch"
 	"github.com/hydraide/hydraide/app/core/hydra/swamp/vigil"
 	"github.com/hydraide/hydraide/app/name"
+	"github.com/hydraide/hydraide/app/verifhook"
 )
 
 const (
@@ -3194,6 +3195,7 @@ func (s *swamp) buildBeacon(beaconASC beacon.Beacon, beaconDESC beacon.Beacon, b
 
 	if !beaconASC.IsInitialized() {
 		beaconASC.SetInitialized(true)
+		verifhook.Point("swamp.buildBeacon.afterInit")
 		beaconASC.PushManyFromMap(s.treasuresForBeacon(bc))
 		var err error
 		switch bc {
@@ -3239,6 +3241,7 @@ func (s *swamp) buildBeacon(beaconASC beacon.Beacon, beaconDESC beacon.Beacon, b
 
 	if !beaconDESC.IsInitialized() {
 		beaconDESC.SetInitialized(true)
+		verifhook.Point("swamp.buildBeacon.afterInit")
 		beaconDESC.PushManyFromMap(s.treasuresForBeacon(bc))
 		var err error
 		switch bc {
